@@ -804,7 +804,7 @@ pub fn run(args: &Args, sink: &mut Sink) {
     sink.stat_n("exhaustive.D", nd);
     // E. random histories
     let mut rng = Rng(args.seed ^ 0x5EC);
-    let rounds = if thorough { 20000 } else { 2500 };
+    let rounds = if thorough { 150000 } else { 2500 };
     for k in 0..rounds {
         sink.case(&format!("R{k}"));
         let mut r = rng.fork();
